@@ -157,6 +157,11 @@ def probe_class(features):
             kind, delay = script
             self.x_hist.log('enter', self.name, 'maintask')
             try:
+                if kind == 'set_first':
+                    # a value obtained without waiting at the very first run of the task,
+                    # i.e. before the simulator begins to initialise the blocks
+                    self.set_output(('maintask', self.name))
+                    await asyncio.sleep(10 ** 9)
                 if kind == 'forever':
                     await asyncio.sleep(10 ** 9)
                 await asyncio.sleep(delay)
